@@ -1,5 +1,5 @@
 """C04 — the token stream is a faithful, layout-independent reading of the text."""
-import hashlib, json, os, random, shutil
+import hashlib, json, os, random, re, shutil
 import common, gen04, lexcoq, lexgen, sqlgen
 from common import Report, log
 
@@ -370,6 +370,16 @@ def run(tier):
     except common.StageError as e:
         return common.stage_fail(rp, e)
     rp.cov["keywords_converted_to_identifiers"] = sorted(tb.ident_like)
+    # the other direction: words the tokenizer reads as plain identifiers but the token converter re-types as keywords by
+    # their spelling (RETURNING, LATERAL, ...): keywords for the parse, so the layout oracle re-cases them too
+    try:
+        src = open(os.path.join(common.REPO, "pkg", "sql", "parser", "token_conversion.go"), encoding="utf-8", errors="replace").read()
+        cands = sorted(w for w in set(re.findall(r'"([A-Z][A-Z_]{1,30})"', src)) if w not in tb.kw)
+        ko = run_impl([enc(w) for w in cands], parse=False)
+        tb.conv_kw = {w for w, o in zip(cands, ko) if o.get("conv") and len(o["conv"]) == 2 and int(o["conv"][0].split(":")[0]) != tb.tt["Identifier"]}
+    except (common.StageError, OSError, KeyError, ValueError):
+        tb.conv_kw = set()
+    rp.cov["identifiers_converted_to_keywords"] = sorted(tb.conv_kw)
 
     kf = common.known_findings("C04")
     known = [k for k in kf if k["status"] == "known"]
@@ -565,6 +575,10 @@ def run(tier):
     # ---- layout independence oracle: same lexemes, other separators / keyword case => same kinds+values, same parse
     lay_in = [s for s in corpus if len(s) < 1500][: (250 if quick else 3000)] + sqlgen.generated_statements(rng, 150 if quick else 2000) \
         + [s[0] for s in streams[:(400 if quick else 6000)]]
+    # statements using the converter-typed keywords (each several times: the re-casing is random)
+    conv_stmts = ["INSERT INTO t (a) VALUES (1) RETURNING a", "UPDATE t SET a = 1 WHERE b = 2 RETURNING a, b", "DELETE FROM t WHERE a = 1 RETURNING *",
+                  "SELECT a FROM t, LATERAL (SELECT 1) AS l", "SELECT a FROM t WHERE a = ANY (SELECT b FROM u)", "SELECT a FROM t WHERE a > ALL (SELECT b FROM u)"]
+    lay_in += conv_stmts * (4 if quick else 12)
     pairs_l = []
     for s in lay_in:
         try:
